@@ -119,7 +119,7 @@ func canonErr(e grammar.VerifError) string {
 	switch {
 	case e.Kind == "max":
 		return "max"
-	case strings.HasPrefix(e.Msg, "no match found"):
+	case e.Kind == "nomatch":
 		return "nomatch"
 	case e.Kind == "enc":
 		return fmt.Sprintf("%d:%s:enc", e.Offset, hx(rule))
